@@ -28,7 +28,7 @@ ASSUMPTIONS = ["stderr is not compared (progress bars carry timings)",
                "snapshot = per node: class, scalar / child identity list, parent identity, option flags, quoted flag"]
 MINIMUMS = {"quick": {"cross_seed_comparisons": 400, "within_process_repeats": 1500, "purity_snapshots": 800,
                       "subprocess_comparisons": 8, "colour_printers_in_one_process": 500},
-            "thorough": {"cross_seed_comparisons": 20000, "within_process_repeats": 40000, "purity_snapshots": 30000,
+            "thorough": {"cross_seed_comparisons": 10000, "within_process_repeats": 20000, "purity_snapshots": 12000,
                          "subprocess_comparisons": 100, "colour_printers_in_one_process": 3000}}
 
 MODES = [[], ["-e"], ["-d"], ["-j"], ["--color"], ["--format", "yaml"], ["--format", "json5"], ["-jl"], ["--html"]]
